@@ -711,8 +711,16 @@ class Interp:
                 raise OutOfReach(f"binop {type(op).__name__}")
         if isinstance(op, ast.Add) and (self._is_strlike(a) and self._is_strlike(b)):
             return self.concat_str([a, b])
-        if isinstance(op, ast.BitOr) and isinstance(a, (SetView, SymPySet)):
-            raise OutOfReach("set union")
+        if isinstance(a, SymPySet) and isinstance(b, SymPySet) and isinstance(op, (ast.Sub, ast.BitOr, ast.BitAnd)):
+            if isinstance(op, ast.Sub):
+                return SymPySet([x for x in a if not self.branch_truth(self.wrapb(self.contains(b, x)), "setdiff")])
+            if isinstance(op, ast.BitAnd):
+                return SymPySet([x for x in a if self.branch_truth(self.wrapb(self.contains(b, x)), "setand")])
+            out = SymPySet(a)
+            for x in b:
+                if not self.branch_truth(self.wrapb(self.contains(out, x)), "setor"):
+                    out.append(x)
+            return out
         ta, tb = self.num_term(a), self.num_term(b)
         if ta is None or tb is None:
             raise OutOfReach(f"binop {type(op).__name__} on {type(a).__name__},{type(b).__name__}")
